@@ -105,6 +105,9 @@ type Reg struct {
 	Form   int
 	Outs   []OutSpec
 	HasErr bool
+	// PtrErr: the error result is declared with a concrete pointer type that implements error
+	// (func(...) (T, *ConfigError)); nil means success (synthesised constructors only)
+	PtrErr bool
 	UseIn  bool
 	// PtrIn: the parameter object is taken by pointer (func(p *Params)); the harness keeps the
 	// pointer, as a service that stores its parameter object would (synthesised constructors only)
@@ -197,7 +200,9 @@ func (r Reg) String() string {
 			sb.WriteString("[" + o.Group + "]")
 		}
 	}
-	if r.HasErr {
+	if r.HasErr && r.PtrErr && r.Kind == KindMakeFunc {
+		sb.WriteString(",*err")
+	} else if r.HasErr {
 		sb.WriteString(",err")
 	}
 	sb.WriteString(")")
